@@ -22,6 +22,13 @@ CHECKS = {
         note="keys/values are str; str.lower modelled for code points < 256; NoVars and GetDict covered by the oracle only."),
 }
 
+# properties built by per-property modules: claimed when listed here and design_notes/Cxx.json exists
+ENABLED = ["C03"]
+for pid in ENABLED:
+    f = os.path.join(ROOT, "design_notes", pid + ".json")
+    if os.path.exists(f) and os.path.exists(os.path.join(ROOT, "harness", "props", pid.lower() + ".py")):
+        CHECKS[pid] = json.load(open(f))
+
 NOT_YET = {}
 for i in range(1, 21):
     pid = "C%02d" % i
